@@ -151,19 +151,20 @@ StopAdv(t) ==
 RestA == <<alive, joined, enough, loop, pollpc, discQ, ongoing, hd, dl, sig, bpc, bt, bctx, sawReady, published, apiBlocked>>
 
 \* handleAddSubscription
-Sub(t) == /\ LoopIdle /\ t \in joined /\ subs[t] < MaxRef /\ orphans[t] < 2
+Sub(t) == /\ "adv" \in Parts /\ LoopIdle /\ t \in joined /\ subs[t] < MaxRef /\ orphans[t] < 2
           /\ subs' = [subs EXCEPT ![t] = @ + 1]
           /\ IF DevNoAdvGuard \/ ~Interest(t) THEN StartAdv(t) ELSE UNCHANGED AdvVars
           /\ UNCHANGED <<relays, RestA>>
 \* handleRemoveSubscription
-\* (the environment lets cancelled goroutines exit before it produces a third one: keeps the counters small)
-Room(t) == zomb[t] < 2 /\ orphans[t] < 2
+\* (the environment lets a cancelled goroutine exit before it cancels the next one of the topic: zomb is a counter, so
+\* "every cancelled goroutine exits" can only be stated as "the counter returns to 0")
+Room(t) == zomb[t] = 0 /\ orphans[t] < 2
 Cancel(t) == /\ LoopIdle /\ subs[t] > 0 /\ Room(t)
              /\ subs' = [subs EXCEPT ![t] = @ - 1]
              /\ IF subs[t] = 1 /\ (DevStopIgnoresRelay \/ relays[t] = 0) THEN StopAdv(t) ELSE UNCHANGED AdvVars
              /\ UNCHANGED <<relays, RestA>>
 \* handleAddRelay
-Relay(t) == /\ LoopIdle /\ t \in joined /\ relays[t] < MaxRef /\ orphans[t] < 2
+Relay(t) == /\ "adv" \in Parts /\ LoopIdle /\ t \in joined /\ relays[t] < MaxRef /\ orphans[t] < 2
             /\ relays' = [relays EXCEPT ![t] = @ + 1]
             /\ IF DevNoAdvGuard \/ ~Interest(t) THEN StartAdv(t) ELSE UNCHANGED AdvVars
             /\ UNCHANGED <<subs, RestA>>
@@ -269,21 +270,22 @@ BCheck(c) == /\ bpc[c] = "check"
                    /\ IF enough[bt[c]]
                         THEN bpc' = [bpc EXCEPT ![c] = "pub"] /\ sawReady' = [sawReady EXCEPT ![c] = TRUE]
                         ELSE bpc' = [bpc EXCEPT ![c] = "req"] /\ UNCHANGED sawReady
-                \/ Gone(c) /\ bpc' = [bpc EXCEPT ![c] = "fail"] /\ UNCHANGED sawReady
              /\ UNCHANGED <<discQ, sig, bt, bctx, published, RestB>>
 BReq(c) == /\ bpc[c] = "req"
            /\ \/ /\ Len(discQ) < QCap /\ discQ' = Append(discQ, Req(bt[c], "boot", c, TRUE))
                  /\ bpc' = [bpc EXCEPT ![c] = "wait"]
-              \/ Gone(c) /\ bpc' = [bpc EXCEPT ![c] = "fail"] /\ UNCHANGED discQ
            /\ UNCHANGED <<sig, bt, bctx, sawReady, published, RestB>>
 BWait(c) == /\ bpc[c] = "wait"
             /\ \/ sig[c] = 1 /\ sig' = [sig EXCEPT ![c] = 0] /\ bpc' = [bpc EXCEPT ![c] = "sleep"]
-               \/ Gone(c) /\ bpc' = [bpc EXCEPT ![c] = "fail"] /\ UNCHANGED sig
             /\ UNCHANGED <<discQ, bt, bctx, sawReady, published, RestB>>
 BSleep(c) == /\ bpc[c] = "sleep"
-             /\ \/ bpc' = [bpc EXCEPT ![c] = "check"]
-                \/ Gone(c) /\ bpc' = [bpc EXCEPT ![c] = "fail"]
+             /\ bpc' = [bpc EXCEPT ![c] = "check"]
              /\ UNCHANGED <<discQ, sig, bt, bctx, sawReady, published, RestB>>
+\* the ctx.Done() / d.p.ctx.Done() arm every select of Bootstrap has: return false.  (A select with several ready arms
+\* picks one at random: the arm is an action of its own with its own fairness condition.)
+BGone(c) == /\ bpc[c] \in {"check", "req", "wait", "sleep"} /\ Gone(c)
+            /\ bpc' = [bpc EXCEPT ![c] = "fail"]
+            /\ UNCHANGED <<discQ, sig, bt, bctx, sawReady, published, RestB>>
 \* Bootstrap returned false.  AS FOUND the result is dropped and validate goes on to the hand-over select.
 BFail(c) == /\ bpc[c] = "fail"
             /\ bpc' = [bpc EXCEPT ![c] = IF DevIgnoreBootstrapResult THEN "pub" ELSE "ret"]
@@ -313,7 +315,7 @@ ApiAbort == /\ apiBlocked # <<>> /\ ~alive /\ ~DevBareSend /\ apiBlocked' = Tail
             /\ UNCHANGED <<discQ, RestApi>>
 
 (* -------- shutdown: every advertising context is a child of the node's context *)
-Shutdown == /\ alive /\ alive' = FALSE /\ \A t \in Topics : zomb[t] + orphans[t] < 2
+Shutdown == /\ alive /\ alive' = FALSE /\ \A t \in Topics : zomb[t] = 0
             /\ zomb' = [t \in Topics |-> zomb[t] + orphans[t] + (IF Has(t) THEN 1 ELSE 0)]
             /\ cur' = [t \in Topics |-> NoAdv] /\ orphans' = [t \in Topics |-> 0]
             /\ UNCHANGED <<subs, relays, joined, enough, loop, pollpc, discQ, ongoing, hd, dl, sig, bpc, bt, bctx, sawReady,
@@ -326,7 +328,7 @@ Internal ==
        \/ \E t \in Topics : AdvRet(t) \/ AdvTimer(t) \/ ZombExit(t)
        \/ PollFire \/ PollSend \/ PollExit \/ LoopReq \/ LoopReqAbort \/ LoopExit
        \/ DLRecv \/ DLExit \/ \E t \in Topics, i \in 1..2 : DLDone(t, i) \/ HDFindRet(t, i) \/ HDDoneCtx(t, i) \/ HDSig(t, i)
-       \/ \E c \in Callers : BCheck(c) \/ BReq(c) \/ BWait(c) \/ BSleep(c) \/ BFail(c) \/ BPub(c)
+       \/ \E c \in Callers : BCheck(c) \/ BReq(c) \/ BWait(c) \/ BSleep(c) \/ BGone(c) \/ BFail(c) \/ BPub(c)
        \/ ApiUnblock \/ ApiAbort
 Next == Env \/ Internal
 
@@ -334,7 +336,7 @@ Fair == /\ \A t \in Topics : WF_vars(AdvRet(t)) /\ WF_vars(ZombExit(t))
         /\ WF_vars(PollFire) /\ SF_vars(PollSend) /\ WF_vars(PollExit) /\ SF_vars(LoopReq) /\ WF_vars(LoopReqAbort) /\ WF_vars(LoopExit)
         /\ WF_vars(DLRecv) /\ WF_vars(DLExit)
         /\ \A t \in Topics, i \in 1..2 : WF_vars(DLDone(t, i)) /\ WF_vars(HDFindRet(t, i)) /\ WF_vars(HDDoneCtx(t, i)) /\ WF_vars(HDSig(t, i))
-        /\ \A c \in Callers : SF_vars(BCheck(c)) /\ SF_vars(BReq(c)) /\ WF_vars(BWait(c)) /\ WF_vars(BSleep(c)) /\ WF_vars(BFail(c)) /\ SF_vars(BPub(c))
+        /\ \A c \in Callers : SF_vars(BCheck(c)) /\ SF_vars(BReq(c)) /\ WF_vars(BWait(c)) /\ WF_vars(BSleep(c)) /\ WF_vars(BGone(c)) /\ WF_vars(BFail(c)) /\ SF_vars(BPub(c))
         /\ SF_vars(ApiUnblock) /\ WF_vars(ApiAbort)
 Spec == Init /\ [][Next]_vars /\ Fair
 
@@ -365,8 +367,9 @@ P_X06_c3b == \A t \in Topics : (t \in ongoing) ~> (t \notin ongoing \/ ~alive)
 \* X06.e: published only after the readiness function returned true
 P_X06_e1 == \A c \in Callers : published[c] => sawReady[c]
 \* X06.e: Bootstrap / Publish terminate: ready, context ended or shutdown
-P_X06_e2 == \A c \in Callers : (bpc[c] \notin {"idle", "ret"} /\ (enough[bt[c]] \/ Gone(c)))
-                                 ~> (bpc[c] = "ret" \/ (~enough[bt[c]] /\ ~Gone(c)))
+En(t) == t \in Topics /\ enough[t]
+P_X06_e2 == \A c \in Callers : (bpc[c] \notin {"idle", "ret"} /\ (En(bt[c]) \/ Gone(c)))
+                                 ~> (bpc[c] = "ret" \/ (~En(bt[c]) /\ ~Gone(c)))
 \* X06.h: after shutdown everything exits
 AllExited == /\ pollpc = "exited" /\ dl = "exited" /\ loop.st = "exited" /\ apiBlocked = <<>>
              /\ \A t \in Topics : zomb[t] = 0 /\ ~Has(t) /\ orphans[t] = 0 /\ hd[t] = <<>>
